@@ -73,6 +73,47 @@ Proof.
   intros x. rewrite !sdiff_In, H1, H2. tauto.
 Qed.
 
+Lemma seteq_filter : forall (f : string -> bool) a a',
+  seteq a a' -> seteq (filter f a) (filter f a').
+Proof.
+  intros f a a' [N1 [N2 H]]. split; [apply NoDup_filter; exact N1|].
+  split; [apply NoDup_filter; exact N2|].
+  intros x. rewrite !filter_In, H. tauto.
+Qed.
+
+Lemma forallb_same_members : forall (f : string -> bool) a b,
+  (forall x, In x a <-> In x b) -> forallb f a = forallb f b.
+Proof.
+  intros f a b H.
+  destruct (forallb f a) eqn:E1, (forallb f b) eqn:E2; try reflexivity.
+  - rewrite forallb_forall in E1.
+    assert (forallb f b = true) by (apply forallb_forall; intros x Hx; apply E1, H, Hx). congruence.
+  - rewrite forallb_forall in E2.
+    assert (forallb f a = true) by (apply forallb_forall; intros x Hx; apply E2, H, Hx). congruence.
+Qed.
+
+(** the expansion into a sum of products is never empty: [sum_terms]' empty case is unreachable *)
+Lemma additive_terms_nonempty : forall e, additive_terms e <> [].
+Proof.
+  induction e as [v|v|t|l IHl r IHr|l IHl r IHr|l IHl r IHr]; simpl; try discriminate.
+  - destruct (additive_terms l); [contradiction | discriminate].
+  - destruct (additive_terms l); [contradiction | discriminate].
+  - destruct (additive_terms l) as [|lt ls]; [contradiction|].
+    destruct (additive_terms r) as [|rt rs]; [contradiction|]. simpl. discriminate.
+Qed.
+
+Lemma fold_add_cequiv : forall ds ds', Forall2 cequiv ds ds' ->
+  forall d d', cequiv d d' -> cequiv (fold_left DAdd ds d) (fold_left DAdd ds' d').
+Proof.
+  induction 1; intros d d' Hd; simpl; [exact Hd|].
+  apply IHForall2. apply ce_add; assumption.
+Qed.
+
+Lemma sum_terms_cequiv : forall ds ds', Forall2 cequiv ds ds' -> cequiv (sum_terms ds) (sum_terms ds').
+Proof.
+  intros ds ds' H. destruct H; simpl; [apply ce_refl|]. apply fold_add_cequiv; assumption.
+Qed.
+
 (* ------------------------------------------------------------------------------------------ *)
 (** * the theorem *)
 
@@ -92,13 +133,13 @@ Section TwoOracles.
     apply Permutation_sym, ord_perm'.
   Qed.
 
-  Lemma contract_split_seteq : forall pth pth' l r c c',
+  Lemma shared_indexes_seteq : forall pth pth' l r c c',
     seteq c c' ->
-    let '(cl, cr, inter) := contract_split ordi pth l r c in
-    let '(cl', cr', inter') := contract_split ordi' pth' l r c' in
-    seteq cl cl' /\ seteq cr cr' /\ seteq inter inter'.
+    let '(li, ri, sh) := shared_indexes ordi pth l r c in
+    let '(li', ri', sh') := shared_indexes ordi' pth' l r c' in
+    seteq li li' /\ seteq ri ri' /\ seteq sh sh'.
   Proof.
-    intros pth pth' l r c c' [N1 [N2 H]]. unfold contract_split.
+    intros pth pth' l r c c' [N1 [N2 H]]. unfold shared_indexes.
     set (kl := akeys (index_participants (ordi pth) (false :: pth) l)).
     set (kl' := akeys (index_participants (ordi' pth') (false :: pth') l)).
     set (kr := akeys (index_participants (ordi pth) (true :: pth) r)).
@@ -115,12 +156,104 @@ Section TwoOracles.
     assert (Nr' : NoDup kr') by apply (ip_NoDup (ordi' pth') (ordi_perm' pth')).
     assert (Sl : seteq (sinter kl c) (sinter kl' c')) by (apply seteq_sinter; assumption).
     assert (Sr : seteq (sinter kr c) (sinter kr' c')) by (apply seteq_sinter; assumption).
-    assert (Si : seteq (sinter (sinter kl c) (sinter kr c)) (sinter (sinter kl' c') (sinter kr' c'))).
-    { destruct Sl as [A [B C]]. destruct Sr as [_ [_ D]]. apply seteq_sinter; assumption. }
+    split; [exact Sl|]. split; [exact Sr|].
+    destruct Sl as [A [B C]]. destruct Sr as [_ [_ D]]. apply seteq_sinter; assumption.
+  Qed.
+
+  Lemma contract_split_add_seteq : forall pth pth' l r c c',
+    seteq c c' ->
+    let '(cl, cr, inter) := contract_split_add ordi pth l r c in
+    let '(cl', cr', inter') := contract_split_add ordi' pth' l r c' in
+    seteq cl cl' /\ seteq cr cr' /\ seteq inter inter'.
+  Proof.
+    intros pth pth' l r c c' S. unfold contract_split_add.
+    pose proof (shared_indexes_seteq pth pth' l r c c' S) as SH.
+    destruct (shared_indexes ordi pth l r c) as [[li ri] sh].
+    destruct (shared_indexes ordi' pth' l r c') as [[li' ri'] sh'].
+    destruct SH as [Sl [Sr Ss]].
+    assert (Si : seteq (filter (fun i => carried_by_every_term l i && carried_by_every_term r i) sh)
+                       (filter (fun i => carried_by_every_term l i && carried_by_every_term r i) sh'))
+      by (apply seteq_filter; exact Ss).
     split; [|split].
     - apply seteq_sdiff; [exact Sl | apply Si].
     - apply seteq_sdiff; [exact Sr | apply Si].
     - exact Si.
+  Qed.
+
+  Lemma contract_split_mul_seteq : forall pth pth' l r c c',
+    seteq c c' ->
+    let '(cl, cr, inter) := contract_split_mul ordi pth l r c in
+    let '(cl', cr', inter') := contract_split_mul ordi' pth' l r c' in
+    seteq cl cl' /\ seteq cr cr' /\ seteq inter inter'.
+  Proof.
+    intros pth pth' l r c c' S. unfold contract_split_mul.
+    pose proof (shared_indexes_seteq pth pth' l r c c' S) as SH.
+    destruct (shared_indexes ordi pth l r c) as [[li ri] sh].
+    destruct (shared_indexes ordi' pth' l r c') as [[li' ri'] sh'].
+    destruct SH as [Sl [Sr Ss]].
+    split; [|split].
+    - apply seteq_sdiff; [exact Sl | apply Ss].
+    - apply seteq_sdiff; [exact Sr | apply Ss].
+    - exact Ss.
+  Qed.
+
+  (** whether a product is distributed does not depend on the iteration orders *)
+  Lemma product_has_a_place_same : forall pth pth' l r c c',
+    seteq c c' ->
+    product_has_a_place ordi pth l r c = product_has_a_place ordi' pth' l r c'.
+  Proof.
+    intros pth pth' l r c c' S. unfold product_has_a_place.
+    pose proof (shared_indexes_seteq pth pth' l r c c' S) as SH.
+    destruct (shared_indexes ordi pth l r c) as [[li ri] sh].
+    destruct (shared_indexes ordi' pth' l r c') as [[li' ri'] sh'].
+    destruct SH as [_ [_ [_ [_ Ss]]]]. apply forallb_same_members. exact Ss.
+  Qed.
+
+  Lemma desugar_term_equiv : forall site site' c c' t n,
+    seteq c c' ->
+    cequiv (fst (desugar_term ord site c t n)) (fst (desugar_term ord' site' c' t n)) /\
+    snd (desugar_term ord site c t n) = snd (desugar_term ord' site' c' t n).
+  Proof.
+    intros site site' c c' [neg [f fs]] n [N1 [N2 H]]. unfold desugar_term. simpl fst. simpl snd.
+    destruct (desugar_leaf f n) as [d0 n0].
+    destruct (multiply_factors d0 fs n0) as [body n1]. simpl.
+    split; [|reflexivity].
+    assert (W : cequiv (wrap (ord site (sinter (sdedup (flat_map leaf_indexes (term_factors (neg, (f, fs))))) c)) body)
+                       (wrap (ord' site' (sinter (sdedup (flat_map leaf_indexes (term_factors (neg, (f, fs))))) c')) body)).
+    { apply wrap_perm; [|apply ce_refl]. apply ord_seteq_perm.
+      apply seteq_sinter; try apply sdedup_NoDup; [tauto | exact H]. }
+    destruct neg; [apply ce_mul; [apply ce_refl | exact W] | exact W].
+  Qed.
+
+  Lemma desugar_terms_equiv : forall ts pth pth' k k' c c' n,
+    seteq c c' ->
+    Forall2 cequiv (fst (desugar_terms ord pth k c ts n)) (fst (desugar_terms ord' pth' k' c' ts n)) /\
+    snd (desugar_terms ord pth k c ts n) = snd (desugar_terms ord' pth' k' c' ts n).
+  Proof.
+    induction ts as [|t ts IH]; intros pth pth' k k' c c' n S; simpl.
+    - split; [constructor | reflexivity].
+    - pose proof (desugar_term_equiv (term_site pth k) (term_site pth' k') c c' t n S) as T.
+      destruct (desugar_term ord (term_site pth k) c t n) as [d n1].
+      destruct (desugar_term ord' (term_site pth' k') c' t n) as [d' n1'].
+      simpl in T. destruct T as [Td Tn]. subst n1'.
+      specialize (IH pth pth' (Datatypes.S k) (Datatypes.S k') c c' n1 S).
+      destruct (desugar_terms ord pth (Datatypes.S k) c ts n1) as [ds n2].
+      destruct (desugar_terms ord' pth' (Datatypes.S k') c' ts n1) as [ds' n2'].
+      simpl in IH. destruct IH as [Id In']. subst n2'. simpl.
+      split; [constructor; assumption | reflexivity].
+  Qed.
+
+  Lemma desugar_distributed_equiv : forall e pth pth' c c' n,
+    seteq c c' ->
+    cequiv (fst (desugar_distributed ord pth e c n)) (fst (desugar_distributed ord' pth' e c' n)) /\
+    snd (desugar_distributed ord pth e c n) = snd (desugar_distributed ord' pth' e c' n).
+  Proof.
+    intros e pth pth' c c' n S. unfold desugar_distributed.
+    pose proof (desugar_terms_equiv (additive_terms e) pth pth' 0 0 c c' n S) as T.
+    destruct (desugar_terms ord pth 0 c (additive_terms e) n) as [ds n1].
+    destruct (desugar_terms ord' pth' 0 c' (additive_terms e) n) as [ds' n1'].
+    simpl in T. destruct T as [Td Tn]. subst n1'. simpl. split; [|reflexivity].
+    apply sum_terms_cequiv. exact Td.
   Qed.
 
   Lemma desugar_expression_equiv : forall e pth pth' c c' n,
@@ -133,9 +266,9 @@ Section TwoOracles.
     - split; [apply ce_refl | reflexivity].
     - split; [apply ce_refl | reflexivity].
     - simpl. split; [|reflexivity]. apply wrap_perm; [apply ord_seteq_perm; exact S | apply ce_refl].
-    - pose proof (contract_split_seteq pth pth' l r c c' S) as CS.
-      destruct (contract_split ordi pth l r c) as [[cl cr] inter].
-      destruct (contract_split ordi' pth' l r c') as [[cl' cr'] inter'].
+    - pose proof (contract_split_add_seteq pth pth' l r c c' S) as CS.
+      destruct (contract_split_add ordi pth l r c) as [[cl cr] inter].
+      destruct (contract_split_add ordi' pth' l r c') as [[cl' cr'] inter'].
       destruct CS as [Sl [Sr Si]].
       specialize (IHl (false :: pth) (false :: pth') cl cl' n Sl).
       destruct (desugar_expression ord ordi (false :: pth) l cl n) as [l1 n1].
@@ -147,9 +280,9 @@ Section TwoOracles.
       simpl in IHr. destruct IHr as [Er En]. subst n2'. simpl.
       split; [|reflexivity]. apply wrap_perm; [apply ord_seteq_perm; exact Si|].
       apply ce_add; assumption.
-    - pose proof (contract_split_seteq pth pth' l r c c' S) as CS.
-      destruct (contract_split ordi pth l r c) as [[cl cr] inter].
-      destruct (contract_split ordi' pth' l r c') as [[cl' cr'] inter'].
+    - pose proof (contract_split_add_seteq pth pth' l r c c' S) as CS.
+      destruct (contract_split_add ordi pth l r c) as [[cl cr] inter].
+      destruct (contract_split_add ordi' pth' l r c') as [[cl' cr'] inter'].
       destruct CS as [Sl [Sr Si]].
       specialize (IHl (false :: pth) (false :: pth') cl cl' n Sl).
       destruct (desugar_expression ord ordi (false :: pth) l cl n) as [l1 n1].
@@ -161,20 +294,23 @@ Section TwoOracles.
       simpl in IHr. destruct IHr as [Er En]. subst n2'. simpl.
       split; [|reflexivity]. apply wrap_perm; [apply ord_seteq_perm; exact Si|].
       apply ce_add; [assumption|]. apply ce_mul; [apply ce_refl | assumption].
-    - pose proof (contract_split_seteq pth pth' l r c c' S) as CS.
-      destruct (contract_split ordi pth l r c) as [[cl cr] inter].
-      destruct (contract_split ordi' pth' l r c') as [[cl' cr'] inter'].
-      destruct CS as [Sl [Sr Si]].
-      specialize (IHl (false :: pth) (false :: pth') cl cl' n Sl).
-      destruct (desugar_expression ord ordi (false :: pth) l cl n) as [l1 n1].
-      destruct (desugar_expression ord' ordi' (false :: pth') l cl' n) as [l1' n1'].
-      simpl in IHl. destruct IHl as [El En]. subst n1'.
-      specialize (IHr (true :: pth) (true :: pth') cr cr' n1 Sr).
-      destruct (desugar_expression ord ordi (true :: pth) r cr n1) as [r1 n2].
-      destruct (desugar_expression ord' ordi' (true :: pth') r cr' n1) as [r1' n2'].
-      simpl in IHr. destruct IHr as [Er En]. subst n2'. simpl.
-      split; [|reflexivity]. apply wrap_perm; [apply ord_seteq_perm; exact Si|].
-      apply ce_mul; assumption.
+    - rewrite (product_has_a_place_same pth pth' l r c c' S).
+      destruct (product_has_a_place ordi' pth' l r c').
+      + pose proof (contract_split_mul_seteq pth pth' l r c c' S) as CS.
+        destruct (contract_split_mul ordi pth l r c) as [[cl cr] inter].
+        destruct (contract_split_mul ordi' pth' l r c') as [[cl' cr'] inter'].
+        destruct CS as [Sl [Sr Si]].
+        specialize (IHl (false :: pth) (false :: pth') cl cl' n Sl).
+        destruct (desugar_expression ord ordi (false :: pth) l cl n) as [l1 n1].
+        destruct (desugar_expression ord' ordi' (false :: pth') l cl' n) as [l1' n1'].
+        simpl in IHl. destruct IHl as [El En]. subst n1'.
+        specialize (IHr (true :: pth) (true :: pth') cr cr' n1 Sr).
+        destruct (desugar_expression ord ordi (true :: pth) r cr n1) as [r1 n2].
+        destruct (desugar_expression ord' ordi' (true :: pth') r cr' n1) as [r1' n2'].
+        simpl in IHr. destruct IHr as [Er En]. subst n2'. simpl.
+        split; [|reflexivity]. apply wrap_perm; [apply ord_seteq_perm; exact Si|].
+        apply ce_mul; assumption.
+      + apply desugar_distributed_equiv. exact S.
   Qed.
 
   Theorem desugar_order_independent : forall a,
